@@ -112,6 +112,20 @@ class Check(PropertyCheck):
                 counters[key] = counters.get(key, 0) + 1
 
     def oracle(self, impl, scenario, index, line, out, ctx):
+        if line == "q available" and impl.dispatcher is not None and index % 7 == 0:
+            # a composite filter that was used as the FIRST member of another composite is still the filter it was
+            import jsl as _jsl
+            d_ = impl.dispatcher
+            ready_ = d_.raw_ready_operations()
+            if ready_:
+                inner = _jsl.create_composite_operation_filter([_jsl.filter_non_idle_machines])
+                before_ = [o.operation_id for o in inner(d_, list(ready_))]
+                _jsl.create_composite_operation_filter([inner, _jsl.filter_non_immediate_operations, _jsl.filter_dominated_operations])
+                after_ = [o.operation_id for o in inner(d_, list(ready_))]
+                alone_ = [o.operation_id for o in _jsl.filter_non_idle_machines(d_, list(ready_))]
+                if not (before_ == after_ == alone_):
+                    return [("composite-reused", f"a composite over [non_idle_machines] returned {before_}; after it was used as the first member "
+                             f"of another composite it returns {after_}; the filter alone gives {alone_}")]
         res = []
         d = impl.dispatcher
         if line.startswith("flt "):
